@@ -132,6 +132,11 @@ def tags(prog):
                 walk(s["with"], [], depth + 1)
             names = _names_after(names, s)
         return names
+    for d in prog.get("decls", []) or []:
+        t.add("decl:" + d["kind"] + (":" + d.get("surface", "") if d["kind"] == "let" else "") + (":module" if d.get("module") else ""))
+        if d["kind"] == "let":
+            for s in d["steps"]:
+                t.add("decl:op:" + s["op"])
     walk(prog["steps"], [], 0)
     ops = [s["op"] for s in prog["steps"]]
     for i in range(len(ops) - 2):
